@@ -375,10 +375,10 @@ func c01Guards(c *Ctx, rule string) {
 	}})
 	// callbacks consulted as exit tests, with which polarity, and with which arguments
 	type cbUse struct {
-		param     *ssa.Parameter
-		call      *ssa.Call
-		exitWhen  bool // the loop exits when the callback returns this
-		isExit    bool
+		param    *ssa.Parameter
+		call     *ssa.Call
+		exitWhen bool // the loop exits when the callback returns this
+		isExit   bool
 	}
 	uses := map[string]*cbUse{}
 	for b := range fbody {
